@@ -83,7 +83,7 @@ def kbodyToJson (kb : KBody) : Json :=
 def recognizeH : Handler := fun j => do
   let fixed ← bool (← field j "fixed")
   let b ← bodyOfJson (← field j "body")
-  return jOpt (fun k => kbodyToJson (toKernelForm b k)) (recognize fixed b)
+  return jOpt (fun k => kbodyToJson (toKernelForm b k)) (if fixed then recognizeDict b else recognize false b)
 
 /-- {"body", "ins": [[[w, v]…]…]} -> per input list: null | [[w, v]…] -/
 def evalH : Handler := fun j => do
@@ -151,6 +151,8 @@ def dispatchH : Handler := fun j => do
   let k ← kernelOfJson (← field j "kernel")
   let tys ← listOf nat (← field j "tys")
   let dyn ← bool (← field j "dynamic")
+  let fixed ← (do match (j.getObjVal? "fixed") with | .ok f => bool f | .error _ => pure false)
+  if fixed then return jOpt Json.str (dispatchFixed accs k tys dyn)
   match dispatch accs k tys dyn with
   | .error .valueError => return Json.mkObj [("raised", "ValueError")]
   | .ok r => return jOpt Json.str r
@@ -219,9 +221,27 @@ def tosaH : Handler := fun j => do
   return jOpt (fun (r : RescaleParams × Nat) => Json.mkObj [("params", paramsToJson r.1), ("res", jNat r.2)])
     (tosaToKernel t)
 
+/-- {"body", "accs", "dynamic"} -> what the pipelines do to ONE generic of a module:
+    {"kform": null | kernel form, "round_trip": mixed body after recognition + expansion, "call": null | library_call} -/
+def recognizePipelineH : Handler := fun j => do
+  let b ← bodyOfJson (← field j "body")
+  let accs ← listOf accOfJson (← field j "accs")
+  let dyn ← bool (← field j "dynamic")
+  let fixedDispatch ← (do match (j.getObjVal? "fixed_dispatch") with | .ok f => bool f | .error _ => pure false)
+  let r := recognize true b
+  let call : Json := match r with
+    | none => Json.null
+    | some k =>
+      if fixedDispatch then jOpt Json.str (dispatchFixed accs k b.args dyn)
+      else match dispatch accs k b.args dyn with
+        | .error _ => Json.str "raised:ValueError"
+        | .ok c => jOpt Json.str c
+  return Json.mkObj [("kform", jOpt (fun k => kbodyToJson (toKernelForm b k)) r),
+    ("round_trip", mbodyToJson (pipelineRecognizeExpand b)), ("call", call)]
+
 def handlers : List (String × Handler) :=
   [("c18.recognize", recognizeH), ("c18.eval", evalH), ("c18.keval", kevalH), ("c18.expand", expandH),
    ("c18.rescale_body", rescaleBodyH), ("c18.rescale_eval", rescaleEvalH), ("c18.dispatch", dispatchH),
-   ("c18.typed", typedH), ("c18.lower", lowerH), ("c18.meval", mevalH), ("c18.same_kernel", sameKernelH), ("c18.tosa", tosaH)]
+   ("c18.typed", typedH), ("c18.lower", lowerH), ("c18.meval", mevalH), ("c18.same_kernel", sameKernelH), ("c18.tosa", tosaH), ("c18.recognize_pipeline", recognizePipelineH)]
 
 end SnaxVerif.Drv.C18
